@@ -378,6 +378,44 @@ func buildMessage(sp *saml2.SAMLServiceProvider, in *oInput, st *oStrings) (out 
 	if err != nil {
 		return builtMsg{err: err}
 	}
+	if in.Via == "post" {
+		// what the IdP receives through the POST binding: the form field, base64-decoded
+		var body []byte
+		switch in.Kind {
+		case "authn":
+			body, err = sp.BuildAuthBodyPostFromDocument("rs", doc)
+		case "logoutReq":
+			body, err = sp.BuildLogoutBodyPostFromDocument("rs", doc)
+		default:
+			body, err = sp.BuildLogoutResponseBodyPostFromDocument("rs", doc)
+		}
+		if err != nil {
+			return builtMsg{err: err}
+		}
+		h, herr := pyproj.ParseHTML(body)
+		if herr != nil {
+			return builtMsg{err: herr}
+		}
+		for _, t := range h.Tags {
+			if t.Name != "input" {
+				continue
+			}
+			name, val := "", ""
+			for _, a := range t.Attrs {
+				if a[0] == "name" {
+					name = a[1]
+				}
+				if a[0] == "value" {
+					val = a[1]
+				}
+			}
+			if name == "SAMLRequest" || name == "SAMLResponse" {
+				b, derr := base64.StdEncoding.DecodeString(val)
+				return builtMsg{doc: b, err: derr}
+			}
+		}
+		return builtMsg{err: fmt.Errorf("no message field in the POST form")}
+	}
 	b, err := doc.WriteToBytes()
 	return builtMsg{doc: b, err: err}
 }
